@@ -43,9 +43,11 @@ ASSUMPTIONS = [
     "the communication model (reflective walk of the built graphs: endpoint "
     "multisets per (src, dst, tag), self-communication, data-flow dependency "
     "cycle among communication operations) is the definition of well-formed",
-    "diagnostic family = DistributedPartitionVerificationError and subclasses, "
-    "NotImplementedError (self send/receive), pytools.graph.CycleError, "
-    "PartitionInducedCycleError",
+    "a diagnostic is any exception that is not a bare KeyError / IndexError / "
+    "AttributeError / TypeError / NameError / RecursionError / AssertionError "
+    "(PartitionInducedCycleError excepted); on this tree the diagnostics are "
+    "DistributedPartitionVerificationError and subclasses, NotImplementedError "
+    "(self send/receive), pytools.graph.CycleError, PartitionInducedCycleError",
     "affected ranks of a defect = owner of the offending endpoint and the peer "
     "it names; at least one affected rank must raise a diagnostic, no rank "
     "may raise anything outside the family, not every rank may return",
@@ -62,6 +64,20 @@ def _family():
         DistributedPartitionVerificationError, PartitionInducedCycleError)
     return (DistributedPartitionVerificationError, NotImplementedError,
             CycleError, PartitionInducedCycleError)
+
+
+# Exception types that mean "the code fell over" rather than "the code told
+# the user what is wrong".  Anything else (in particular new error classes a
+# refactor may introduce) counts as a diagnostic.
+def _is_crash(e):
+    from pytato.distributed.verify import PartitionInducedCycleError
+    if isinstance(e, _family()):
+        return False
+    if isinstance(e, AssertionError):
+        return not isinstance(e, PartitionInducedCycleError)
+    return isinstance(e, (KeyError, IndexError, AttributeError, TypeError,
+                          NameError, RecursionError, ZeroDivisionError,
+                          StopIteration, simmpi.SimProtocolError))
 
 
 def evaluate(case, res):
@@ -87,7 +103,7 @@ def evaluate(case, res):
     for r, e in raised:
         if isinstance(e, simmpi.SimLivelock):
             v.append({"class": "livelock", "rank": r, "detail": f"{e!r}"[:300]})
-        elif not isinstance(e, fam):
+        elif _is_crash(e):
             v.append({"class": f"crashed-instead-of-diagnosing:{type(e).__name__}",
                       "rank": r,
                       "detail": f"{e!r}"[:300] + f" model: {defects[:3]}"})
@@ -95,7 +111,8 @@ def evaluate(case, res):
         v.append({"class": "ill-formed-program-partitioned", "rank": None,
                   "detail": f"all ranks returned a partition; model: {defects[:4]}"})
         return v
-    fam_raisers = {r for r, e in raised if isinstance(e, fam)}
+    fam_raisers = {r for r, e in raised if not _is_crash(e)
+                   and not isinstance(e, simmpi.SimLivelock)}
     affected = set()
     for _cls, ranks, _d in defects:
         affected |= set(ranks)
